@@ -297,7 +297,10 @@ def sibling_cases(gen, rng, tier, mod):
     if getattr(mod, "SIBLINGS", True) is False:
         return []
     byop = {}
+    ok = getattr(mod, "sibling_ok", None)      # a plug-in may exclude cases that are too expensive to evaluate three more times
     for op, args in gen:
+        if ok is not None and not ok(op, args):
+            continue
         if len(args) >= 2:
             byop.setdefault((op, len(args)), []).append(args)
     budget = max(24, len(gen) // (18 if tier == "quick" else 9))
@@ -324,7 +327,7 @@ def sibling_cases(gen, rng, tier, mod):
             break
     # echo: a random sample of earlier cases once more, in reverse order, after everything else has run in this process
     # (hidden process state that survives between unrelated calls: scratch buffers, lazily initialised tables)
-    small = [c for c in gen if sum(len(a) for a in c[1]) <= 4096]
+    small = [c for c in gen if sum(len(a) for a in c[1]) <= 4096 and (ok is None or ok(c[0], c[1]))]
     if small:
         echo = rng.sample(small, min(len(small), 40 if tier == "quick" else 200))
         out += [(op, list(args)) for op, args in reversed(echo)]
@@ -536,13 +539,15 @@ def main():
     gen = gen_for(rng, tier)
     # Escalation: when the source files the property is anchored in differ from the baseline this machinery was last
     # validated against (tools/source_baseline.json), the quick tier also draws from the thorough generator: all quick
-    # cases plus a random sample of the thorough ones, twice the size of the quick set.  Changed code gets a deeper look;
+    # cases plus a random sample of the thorough ones, about the size of the quick set.  Changed code gets a deeper look;
     # nothing is concluded from the textual difference itself.
     changed = source_changed(pid) if tier == "quick" and os.environ.get("VERIF_NO_ESCALATION") != "1" else []
     if changed:
         seen = {(op, tuple(a)) for op, a in gen}
-        deep = [c for c in gen_for(random.Random(seed + 1), "thorough") if (c[0], tuple(c[1])) not in seen and sum(len(x) for x in c[1]) <= 20000]
-        extra = random.Random(seed + 2).sample(deep, min(len(deep), 2 * len(gen) + 200))
+        cheap = getattr(mod, "sibling_ok", None)
+        deep = [c for c in gen_for(random.Random(seed + 1), "thorough") if (c[0], tuple(c[1])) not in seen and sum(len(x) for x in c[1]) <= 20000
+                and (cheap is None or cheap(c[0], c[1]))]
+        extra = random.Random(seed + 2).sample(deep, min(len(deep), len(gen) + 100))
         gen = gen + extra
         msg = "anchored source changed since the validated baseline (%s): quick tier escalated with %d cases sampled from the thorough generator" % (", ".join(changed[:4]), len(extra))
         log("NOTE: " + msg)
